@@ -180,6 +180,41 @@ def load_findings(prop):
     return [e for e in data.get("findings", []) if e.get("property") == prop and e.get("kind") == "finding"]
 
 
+class InputBaseline:
+    """Input-level known findings: findings/<prop>.inputs.json, committed, never written by a check.
+    Each entry identifies one failing input exactly (sha1 of config + document) together with the signature of
+    what fails on it; a different input, or a different failure on a listed input, is not absorbed."""
+
+    def __init__(self, prop):
+        self.path = os.path.join(ROOT, "findings", prop + ".inputs.json")
+        try:
+            data = json.load(open(self.path, encoding="utf-8"))
+        except FileNotFoundError:
+            data = {"entries": []}
+        self.index = {}
+        for e in data.get("entries", []):
+            self.index.setdefault(e["sha"], set()).add(e["signature"])
+        self.absorbed = {}
+
+    @staticmethod
+    def key(config, doc):
+        return hashlib.sha1((config + "\0" + doc).encode("utf-8", "surrogatepass")).hexdigest()
+
+    def absorbs(self, config, doc, signature):
+        if signature in self.index.get(self.key(config, doc), ()):
+            self.absorbed[signature] = self.absorbed.get(signature, 0) + 1
+            return True
+        return False
+
+
+def collect_failure(prop, config, doc, signature):
+    """Development aid (tools/mkbaseline.py): with VERIF_COLLECT=<file> every failure a sweep sees is appended there."""
+    path = os.environ.get("VERIF_COLLECT")
+    if path:
+        with open(path, "a", encoding="utf-8") as fh:
+            fh.write(json.dumps({"property": prop, "config": config, "doc": doc, "signature": signature}) + "\n")
+
+
 # ---------------------------------------------------------------- check context
 class Ctx:
     def __init__(self, prop, tier, seed):
